@@ -55,13 +55,20 @@ pub const CHOICES: [Choice; 12] = [
 /// known: p::a::K, p::r#type::L;  unknown: a::K (a proper suffix of a known path), p::a::Z, and (thorough tier)
 /// p::b::L::X (a known path is its proper prefix)
 /// (the module of L is named with a raw identifier, as `mod r#type` is recorded by scale-info)
-pub const PATHS: [&str; 5] = [
+pub const PATHS: [&str; 9] = [
     "p::a::K",
     "p::r#type::L",
     "a::K",
     // spelled with leading colons: registrations are keyed by the path as written
     "::p::a::Z",
     "p::r#type::L::X",
+    // (paths 5.. are explored with at most one other path registered - see `extra_path_states`)
+    // a known path with a module put in front of the final identifier, behind it, in front of everything
+    "p::a::x::K",
+    "p::a::K::K",
+    "x::p::a::K",
+    // only the final identifier of a known path
+    "K",
 ];
 const D1: &str = "::d::One";
 const D2: &str = "::d::Two";
@@ -308,6 +315,27 @@ pub fn check_state(st: &ValState, ctx: &mut Ctx) {
     }
 }
 
+pub fn extra_path_states() -> Vec<ValState> {
+    let mut out = vec![];
+    for r in 1..=4u8 {
+        for extra in 5..PATHS.len() {
+            for c in &CHOICES[1..] {
+                let mut choices = vec![Choice::Absent; extra + 1];
+                choices[extra] = *c;
+                out.push(ValState { choices: choices.clone(), reg_size: r, filled: (extra + 1) as u8 });
+                for other in 0..4 {
+                    for c2 in &CHOICES[1..] {
+                        let mut ch = choices.clone();
+                        ch[other] = *c2;
+                        out.push(ValState { choices: ch, reg_size: r, filled: (extra + 1) as u8 });
+                    }
+                }
+            }
+        }
+    }
+    out
+}
+
 struct DVal {
     n_paths: usize,
 }
@@ -494,6 +522,16 @@ pub fn run(tier: &str, seed: u64) -> i32 {
         n_paths: if thorough { 5 } else { 4 },
     };
     report.add(explore(&dval, &budget, seed, |s, ctx| check_state(s, ctx)));
+    // unknown paths that share their final identifier and a prefix / suffix with a known one: each alone, and
+    // together with one registration on one of the first four paths
+    let extra = extra_path_states();
+    report.add(sweep(
+        "D-validate extra unknown paths (a module inserted before / after the final identifier of a known path, the bare identifier) x 11 registrations, alone and next to one other registered path x 4 registries",
+        &extra,
+        Duration::from_secs(120),
+        |s| json!({"paths": &PATHS[..s.choices.len()], "choices": format!("{:?}", s.choices), "registry_user_types": s.reg_size}),
+        |s, ctx| check_state(s, ctx),
+    ));
     let cases = sim_cases(thorough);
     report.add(sweep(
         "D-similar(all ordered selections of <= 4 registry paths over last identifiers {S, T, a, S2} x 11 queries)",
